@@ -6,6 +6,7 @@
 -/
 import MocVerif.Lemmas.ST
 import MocVerif.Lemmas.Consistent2D
+import MocVerif.Lemmas.FlatNormal
 
 namespace Moc.C09
 
@@ -51,6 +52,19 @@ theorem range2d_path_order_independent (a b : FlatST)
     memST t s (Merge2D.toST (Consistent2D.makeConsistent a)) ↔
       memST t s (Merge2D.toST (Consistent2D.makeConsistent b)) := by
   rw [range2d_path_sem a ha, range2d_path_sem b hb]
+  constructor
+  · rintro ⟨e, he, hp⟩; exact ⟨e, (h e).1 he, hp⟩
+  · rintro ⟨e, he, hp⟩; exact ⟨e, (h e).2 he, hp⟩
+
+/-- By the normal-form theorem the ENTRIES themselves — not only the set covered — are independent of the order
+    of the observations and of duplicates. -/
+theorem range2d_path_entries_order_independent (a b : FlatST)
+    (ha : ∀ e ∈ a, e.1.1 < e.1.2 ∧ Canon e.2 ∧ e.2 ≠ []) (hb : ∀ e ∈ b, e.1.1 < e.1.2 ∧ Canon e.2 ∧ e.2 ≠ [])
+    (h : ∀ e, e ∈ a ↔ e ∈ b) : Consistent2D.makeConsistent a = Consistent2D.makeConsistent b := by
+  have x := Consistent2D.makeConsistent_spec a ha
+  have y := Consistent2D.makeConsistent_spec b hb
+  refine Merge2D.VF.ext _ _ 0 none x.1 y.1 (fun t s => ?_)
+  rw [x.2, y.2]
   constructor
   · rintro ⟨e, he, hp⟩; exact ⟨e, (h e).1 he, hp⟩
   · rintro ⟨e, he, hp⟩; exact ⟨e, (h e).2 he, hp⟩
